@@ -15,7 +15,10 @@ LEVEL = 'proof'
 LEVEL_TEXT = ('Unbounded Lean theorems: (0) ALL SIZES of the hand-modelled surface codes '
               '(Properties/C17<Class>.lean): Toric2DCode (Lx,Ly>=2), Planar2DCode and RotatedPlanar2DCode (Lx,Ly>=1) have '
               'IsDistance n H (min Lx Ly), Toric3DCode and XCubeCode (Lx,Ly,Lz>=2) have IsDistance n H (min Lx Ly Lz), Planar3DCode '
-              'and RotatedPlanar3DCode (Lx,Ly,Lz>=1) have IsDistance n H (min Lx (Ly*Lz)), on the matrices assembled from the '
+              'and RotatedPlanar3DCode (Lx,Ly,Lz>=1) have IsDistance n H (min Lx (Ly*Lz)), RhombicToricCode (all L_i even >=2) has '
+              'IsDistance n H (min Lx Ly Lz), RhombicPlanarCode (Lx,Ly>=2, Lz>=1) has IsDistance n H (min (Lx*Ly+(Lx-1)*(Ly-1)) Lz) '
+              '(the weight of the X sheet or the height, NOT min(Lx,Ly,Lz): RhombicPlanarCode(2,2,7).d = 5 and that is the true '
+              'distance), Color488Code (Lx=Ly=L>=1) has IsDistance (8L^2) H (2L), on the matrices assembled from the '
               'hand-written lattice model, and code.d (min weight over the listed logicals) equals that value, for every '
               'lattice size; RotatedToric3DCode (Lx,Ly>=2 not both odd, Lz>=1): IsDistance n H d and code.d = d with d = min Lx Ly '
               '(even x even, k=2), min Ly (Lx*Lz) (odd Lx: defect line, logical Z a wall of Y letters), min Lx (Ly*Lz) (odd Ly) - '
@@ -27,9 +30,15 @@ LEVEL_TEXT = ('Unbounded Lean theorems: (0) ALL SIZES of the hand-modelled surfa
               'translates of a logical line differ by the row of generators between them, consecutive translates of a logical '
               'plane by the slab of vertex generators between them, so any operator commuting with all generators meets every '
               'translate; X-cube: Z lines are rigid, a line is equivalent to the product of three lines through the other '
-              'corners of a rectangle of rows of cubes, which still gives min(L) disjoint representatives); (0b) DEFORMED CODES: a '
+              'corners of a rectangle of rows of cubes, which still gives min(L) disjoint representatives; rhombic codes: an X '
+              'sheet has L translates along its normal through the slab of COLOURED cubes between them - every in-plane edge '
+              'lies on one coloured cube of the slab, every edge across on two (checkerboard slab lemma, periodic and open) - '
+              'a Z line of the toric code moves through rows of planar stars (products of two triangles of a vertex), the Z '
+              'stack of the planar code is equivalent to every vertical stack of x- or y-edges because the z-legs of a '
+              'vertical stack of triangles cancel in pairs; 4.8.8 colour code: a column of qubits has 2L translates, through '
+              'the column of squares or the column of octagons and squares between them); (0b) DEFORMED CODES: a '
               'per-qubit permutation of {X,Y,Z} preserves weight, commutation and span, hence IsDistance and code.d '
-              '(distance_deformation_invariant, every n, H, d); so every deformed code of these classes (every name/axis '
+              '(distance_deformation_invariant, every n, H, d); so every deformed code of these twelve classes (every name/axis '
               'get_deformation accepts) has the same distance, for every size (distance_deformed); (1) distance criterion and '
               'packing bound for every valid [[n,k]] code (a '
               'non-trivial logical anticommutes with some listed logical, by C04; d pairwise disjoint representatives '
@@ -38,23 +47,24 @@ LEVEL_TEXT = ('Unbounded Lean theorems: (0) ALL SIZES of the hand-modelled surfa
               'generators, all products computed in the lanes of one number; exhaustive certificates: enumeration of '
               'every Pauli of weight < d on per-qubit effect tables, sound by bilinearity of the symplectic form and '
               'C04). Instance theorems: for all 16 exported classes, every supported size up to the table bound (2-D '
-              'L<=6, 3-D L<=4, n<=400; 455 of 462 instances) has IsDistance n H code.d, kernel-checked (decide +kernel) '
+              'L<=6, 3-D L<=4, n<=400; 458 of 462 instances) has IsDistance n H code.d, kernel-checked (decide +kernel) '
               'on tables and certificates regenerated from /repo on every run, so the theorems are re-proved against '
               'the current source. The model of `d` (min weight over listed logicals) is tied to code.d by a '
               'differential stream over all table sizes and deformations.')
 LEVEL_NOTE = ('trusted: Lean kernel + standard axioms; translator harness/regen_codes.py (packs the matrices the '
               'current source emits); certificate search harness/regen_dist.py is NOT trusted (Lean checks every '
-              'certificate). Not covered by a kernel-checked theorem (no certificate found: 6.6.6 colour codes have '
-              'd*d > n so disjoint representatives cannot exist, and the enumeration below d is too large): '
-              'Color666PlanarCode L=3..6 and Color666ToricCode L=2..4; Color666PlanarCode L=3 is checked natively '
+              'certificate). Not covered by a kernel-checked theorem (no certificate found: the triangular 6.6.6 colour '
+              'code has d*d > n so disjoint representatives cannot exist, and the enumeration below d is too large): '
+              'Color666PlanarCode L=3..6; Color666PlanarCode L=3 is checked natively '
               '(native_checked, thorough tier: 5.7 million pure X/Z operators below d=7). Sizes beyond the table bound and deformed codes are evaluated natively '
               'with the same proved-sound checker (trusted in addition: Lean compiler/runtime); deformation invariance of '
               'the distance is proved in general (distance_deformation_invariant), so for deformed codes the native '
               'evaluation is redundant with the undeformed instance theorem. All-sizes (unbounded in L) distance '
               'theorems exist for Toric2DCode, Planar2DCode, RotatedPlanar2DCode, Toric3DCode, Planar3DCode, '
-              'RotatedPlanar3DCode, XCubeCode, RotatedToric3DCode, HollowPlanar3DCode (no deformation offered) only '
+              'RotatedPlanar3DCode, XCubeCode, RotatedToric3DCode, HollowPlanar3DCode (no deformation offered), '
+              'RhombicToricCode, RhombicPlanarCode, Color488Code only '
               '(undeformed and deformed; trusted in addition: the correspondence harness tying the hand-written '
-              'lattice models to the classes, as in C01); the other 7 classes are covered by the bounded instance '
+              'lattice models to the classes, as in C01); the other 4 classes are covered by the bounded instance '
               'theorems (named ..._partial).')
 TECHNIQUE = ('Lean 4 proof: certificate-checker soundness (unbounded) + kernel-checked instance theorems over tables '
              'and certificates regenerated from the source; differential correspondence of code.d; independent '
@@ -72,14 +82,14 @@ RULE = ('stream 1: one `dist` op per (class, size, deformation): model distance 
 
 # all-sizes distance theorems of the hand-modelled classes (built and axiom-audited with C17)
 ALLSIZES_CLASSES = ['Toric2DCode', 'Planar2DCode', 'RotatedPlanar2DCode', 'Toric3DCode', 'Planar3DCode',
-                    'RotatedPlanar3DCode', 'XCubeCode', 'HollowPlanar3DCode', 'RotatedToric3DCode']
+                    'RotatedPlanar3DCode', 'XCubeCode', 'HollowPlanar3DCode', 'RotatedToric3DCode', 'RhombicToricCode',
+                    'RhombicPlanarCode', 'Color488Code']
 PROPERTY_MODULES = ['PanqecVerif.Properties.C17'] + [f'PanqecVerif.Properties.C17{c}' for c in ALLSIZES_CLASSES]
 
 # instances of the regenerated tables for which no certificate is expected (see LEVEL_NOTE)
 EXPECTED_UNCERTIFIED = {
     ('Color666PlanarCode', (3, 3)), ('Color666PlanarCode', (4, 4)),
     ('Color666PlanarCode', (5, 5)), ('Color666PlanarCode', (6, 6)),
-    ('Color666ToricCode', (2, 2)), ('Color666ToricCode', (3, 3)), ('Color666ToricCode', (4, 4)),
 }
 
 
